@@ -134,7 +134,7 @@ func refText(s *xSpec, top bool, ns string, from string, sb *strings.Builder) {
 	if v, ok := s.attr("xmlns"); ok && space == "" {
 		space = v
 	}
-	isStanza := top && (s.local == "iq" || s.local == "message" || s.local == "presence") && (space == "" || space == "jabber:client" || space == "jabber:server")
+	isStanza := top && (s.local == "iq" || s.local == "message" || s.local == "presence") && (space == "" || space == ns || space == "jabber:client" || space == "jabber:server")
 	if isStanza && space == "" {
 		space = ns
 	}
@@ -414,6 +414,9 @@ func runC05(rc *RC) {
 	}
 	if !opts.WS && ch.Chance("workload", 1, 3) {
 		opts.Recv = true // the session was received, not initiated
+	}
+	if !opts.WS && !opts.Recv && !opts.S2S && ch.Chance("workload", 1, 5) {
+		opts.Comp = true // a component's session: the content namespace is jabber:component:accept
 	}
 	strat := rc.S.ConfigureStrategy()
 	e := rc.NewE2(opts)
